@@ -707,7 +707,8 @@ class GriffeLoader:
         return [
             (imported_member, wildcard_obj.alias_lineno, wildcard_obj.alias_endlineno)
             for imported_member in module.members.values()
-            if imported_member.is_wildcard_exposed
+            # Unexpanded wildcard imports (placeholders named `path/to/module/*`) are not runtime names.
+            if imported_member.is_wildcard_exposed and not imported_member.name.endswith("/*")
         ]
 
 
